@@ -78,12 +78,17 @@ func c20FreeID(side string, i int) int {
 
 func runC20Free(cc *c20FreeCase, keep bool) c20FreeResult { //nolint:cyclop,gocognit,maintidx
 	res := c20FreeResult{Case: cc.ID}
+	var imu sync.Mutex
 	viol := func(kind, f string, a ...any) {
+		imu.Lock()
+		defer imu.Unlock()
 		if len(res.Violations) < 8 {
 			res.Violations = append(res.Violations, c20Viol{Kind: kind, What: fmt.Sprintf(f, a...)})
 		}
 	}
 	info := func(f string, a ...any) {
+		imu.Lock()
+		defer imu.Unlock()
 		if len(res.Info) < 8 {
 			res.Info = append(res.Info, fmt.Sprintf(f, a...))
 		}
